@@ -170,6 +170,52 @@ fn run_case(c: &Value) -> Vec<Value> {
             vals.truncate(want);
             if let Some(e) = err {
                 vec![("none".into(), json!({"ok":0,"err":e}))]
+            } else if c["path"].as_u64() == Some(1) {
+                // The path the session takes: typed BatchValues + one RowSerializationContext per STATEMENT, through
+                // RawBatchValuesAdapter (connection.rs batch_with_consistency). Every bound value is a blob column.
+                use scylla_cql::frame::response::result::{ColumnSpec, TableSpec};
+                use scylla_cql::serialize::raw_batch::RawBatchValuesAdapter;
+                use scylla_cql::serialize::row::RowSerializationContext;
+                let lists: Vec<Vec<MaybeUnset<Option<Vec<u8>>>>> = {
+                    let mut ls: Vec<Vec<MaybeUnset<Option<Vec<u8>>>>> = dstm
+                        .iter()
+                        .map(|ds| {
+                            ds["values"]
+                                .as_array()
+                                .unwrap()
+                                .iter()
+                                .map(|c| match c["k"].as_str().unwrap() {
+                                    "null" => MaybeUnset::Set(None),
+                                    "unset" => MaybeUnset::Unset,
+                                    _ => MaybeUnset::Set(Some(expand(&c["b"]))),
+                                })
+                                .collect()
+                        })
+                        .collect();
+                    while ls.len() < want {
+                        ls.push(Vec::new());
+                    }
+                    ls.truncate(want);
+                    ls
+                };
+                let specs: Vec<Vec<ColumnSpec<'static>>> = dstm
+                    .iter()
+                    .map(|ds| {
+                        (0..ds["values"].as_array().unwrap().len())
+                            .map(|i| ColumnSpec::borrowed(Box::leak(format!("c{i}").into_boxed_str()), ColumnType::Native(NativeType::Blob), TableSpec::borrowed("ks", "t")))
+                            .collect()
+                    })
+                    .collect();
+                let contexts = specs.iter().map(|sp| RowSerializationContext::from_specs(sp.as_slice()));
+                let b = Batch {
+                    statements: Cow::Owned(stmts),
+                    batch_type: match c["type"].as_u64().unwrap() { 0 => BatchType::Logged, 1 => BatchType::Unlogged, _ => BatchType::Counter },
+                    consistency: cons(c["cl"].as_u64().unwrap()),
+                    serial_consistency: if c["serial"][0] == 1 { Some(serial(c["serial"][1].as_u64().unwrap())) } else { None },
+                    timestamp: if c["ts"][0] == 1 { Some(big(&c["ts"][1])) } else { None },
+                    values: RawBatchValuesAdapter::new(lists, contexts),
+                };
+                make(&b, tracing)
             } else {
                 let b = Batch {
                     statements: Cow::Owned(stmts),
